@@ -23,8 +23,8 @@ cmd = re.split(r"\s+#", cmd)[0]
 cmd = re.sub(r"^cd \S+ && ", "", cmd)
 cmd = cmd.split("   (")[0]                      # trailing explanation in parentheses
 main = cmd.split(" ; rm ")[0]
-inplace = f"./seeded_out/{M}" in main
-if not inplace:
+inplace = "seeded_out/" in main and name not in OVERRIDE   # the demonstration refers to its files in place: a copy is put there
+if not inplace and name not in OVERRIDE:
     main = main.replace(f"seeded_out/{M}/", f"{D}/")
 created = re.findall(r"cp \S+ (\S+)", main)
 import shutil
